@@ -6,7 +6,7 @@
      multidict.py:289-357 GetDict.on_change and the mutators that call it
      request.py:827-852  BaseRequest.GET (cache in environ['webob._parsed_query_vars'])
      request.py:861-868  BaseRequest.params
-     request.py:1737-1753 Transcoder.transcode_query
+     request.py:1798-1812 Transcoder.transcode_query (REPAIRED: fixes/C09-9-transcode-bare-names.patch)
    Definitions only (no proofs). *)
 From Coq Require Import ZArith NArith List Bool.
 Require Import Webob.Lib.Val Webob.Lib.PyStr Webob.Lib.C09_Utf8 Webob.Model.MultiDict.
@@ -198,13 +198,16 @@ Definition params_items (get post : items) : items := nested_items [get; post].
 (* ---------------------------------------------------------------- Transcoder.transcode_query *)
 Section Transcode.
   Variable decode : list N -> option str.     (* bytes.decode(charset) of the source charset *)
+  (* "&".join(quote_plus(name) for name, _ in q): names without values keep that form *)
+  Definition bare_names (l : items) : str :=
+    join [38] (map (fun kv => quote_plus (utf8_encode (fst kv))) l).
   Definition transcode_query (q : str) : res str :=
-    if negb (mem_n 61 q) then Ok q                            (* "=" not in q: returned as is *)
-    else match parse_qsl_text decode q with
-         | Ok l => Ok (on_change l)                           (* url_encode(list of (str, str)) *)
-         | UnicodeDecodeError => UnicodeDecodeError
-         | UnicodeEncodeError => UnicodeEncodeError
-         end.
+    match parse_qsl_text decode q with                       (* parsed first: errors surface for every q *)
+    | Ok l => if mem_n 61 q then Ok (on_change l)            (* url_encode(list of (str, str)) *)
+              else Ok (bare_names l)                         (* "=" not in q_orig *)
+    | UnicodeDecodeError => UnicodeDecodeError
+    | UnicodeEncodeError => UnicodeEncodeError
+    end.
 End Transcode.
 
 (* bytes.decode('latin-1') never fails (bytes are octets; anything else is not a bytes object) *)
